@@ -77,6 +77,14 @@ def bool_flags(fi: FuncInfo) -> Set[str]:
     return {k for k, v in vals.items() if v and k not in fi.params()}
 
 
+def _widen(delta: Optional[int]) -> Optional[int]:
+    """Keep the mirror offset in a small range so that loops which push
+    or pop without touching the mirror reach a fixpoint (offset unknown)."""
+    if delta is not None and abs(delta) > 3:
+        return None
+    return delta
+
+
 class StackAnalysis:
     def __init__(self, fi: FuncInfo, stack: str, mirror: Optional[str],
                  flags: Iterable[str]) -> None:
@@ -103,7 +111,8 @@ class StackAnalysis:
         lo, exact, delta, flags = st
         nlo = min(lo + 1, 2)
         nexact = exact and lo + 1 <= 1
-        return (nlo, nexact, None if delta is None else delta - 1, flags)
+        return (nlo, nexact, _widen(None if delta is None else delta - 1),
+                flags)
 
     def _pop(self, st: StackState) -> StackState:
         lo, exact, delta, flags = st
@@ -113,7 +122,8 @@ class StackAnalysis:
             nlo, nexact = 0, exact
         else:
             nlo, nexact = 1, False
-        return (nlo, nexact, None if delta is None else delta + 1, flags)
+        return (nlo, nexact, _widen(None if delta is None else delta + 1),
+                flags)
 
     # -- access checks -------------------------------------------------
     def _check_expr(self, expr: ast.AST, st: StackState) -> StackState:
